@@ -703,7 +703,9 @@ class Unary(Expression):
     @contextmanager
     def calculate(self, dst, long, force=False):
         with self.ebpf.get_free_register(dst) as dst:
-            with self.arg.calculate(dst, long, True) as (dst, long):
+            with self.arg.calculate(dst, long, True) as (dst, arg_long):
+                if long is None:
+                    long = arg_long
                 self.calculate_unary(dst, long)
                 yield dst, long
 
